@@ -11,10 +11,13 @@
    depths, leaves the file-only nodes (also below a replaced node), replaces own content and metadata of every node
    present in both, adds the rest -- and save(path, root, mode = any append-over mode) leaves exactly that in the file.
    (5) a foreign tree (root name not in the file) appended under an emdpath: exactly the selection goes under the target
-   group and no object off the target's path changes.  PARTIAL: the emdpath variants for a root the file already has
-   (targeted appends within one tree) and root metadata under append-over are tied by correspondence + the
-   reference-model oracle. *)
-From Emd Require Import Base.Prelude Model.H5 Model.Emd Model.Reader Generated.Tables Proofs.PTree Proofs.PFault Proofs.PAppend Proofs.PRead Proofs.PUnion Proofs.PUnionAO Proofs.PTarget.
+   group and no object off the target's path changes.  (6) a targeted append within one tree -- save(path, root, mode = append, emdpath = "root/a/b") --
+   merges the runtime branch at a/b into the file's branch at a/b (the union again) and changes nothing off that path.
+   Root metadata follow the same rule per entry name (append: file entries win; append-over: runtime entries replace).
+   (7) save(path, node, mode = append) for an inner node: merged at its own path, or written whole when it is one beyond
+   the file.  PARTIAL: an inner node as the data together with an emdpath, and append-over of an inner node / with an
+   emdpath, are tied by correspondence + the reference-model oracle. *)
+From Emd Require Import Base.Prelude Model.H5 Model.Emd Model.Reader Generated.Tables Proofs.PTree Proofs.PFault Proofs.PAppend Proofs.PRead Proofs.PUnion Proofs.PUnionAO Proofs.PTarget Proofs.PAfter.
 
 (* merge m n: m's own content; a child of n called like a child of m is merged into it, recursively; the other children
    of n follow m's, each with its whole branch.  compat m n: n's children are distinctly named, are not called like a
@@ -43,6 +46,18 @@ Theorem C09_append_save_leaves_the_union_in_the_file :
 Proof. exact append_save_is_union. Qed.
 Print Assumptions C09_append_save_leaves_the_union_in_the_file.
 
+(* ... and what a reader then sees is that union, node for node (C01's reader theorem on the file the append left) *)
+Theorem C09_append_then_read_returns_the_union :
+  forall c c0 m root md tr,
+    In md appendmode -> tr <> Some false ->
+    rcls m = CRoot -> rname root = rname m -> ok_tree m -> compat m root ->
+    (rmds m <> [] \/ rmds root = []) -> NoDup (keys (rmds root)) ->
+    rd_tree m -> rd_tree root -> rname m <> "" -> no_slash (rname m) = true ->
+    exists f, write_node c (H5 (whole_file c0 m)) root [] (WA md tr None) = (Ok tt, H5 f) /\
+              read (H5 f) None None = Ok (RTree (canon (union_root m root)) RetRoot).
+Proof. exact append_then_read. Qed.
+Print Assumptions C09_append_then_read_returns_the_union.
+
 (* ---------- append-over.  aom n ks = the children a file node has after runtime node n went over it: the file-only ones
    stay (first); then each child of n -- a new one as it is (with its whole branch), one that replaces a file child km as
    `replaced k km` = k's own class / payload / metadata, and below it aom k (the children of km, which the replace step
@@ -67,6 +82,17 @@ Theorem C09_appendover_save_leaves_union_and_replace_in_the_file :
     write_node c (H5 (whole_file c0 m)) root [] (WA md tr None) = (Ok tt, H5 (whole_file c0 (with_kids m (aom root (rkids m))))).
 Proof. exact appendover_save. Qed.
 Print Assumptions C09_appendover_save_leaves_union_and_replace_in_the_file.
+
+(* ... with root metadata: md_over mf mr = the file's entries the runtime root does not have, then the runtime root's *)
+Theorem C09_appendover_save_with_root_metadata :
+  forall c c0 m root md tr,
+    In md appendovermode -> tr <> Some false ->
+    rcls m = CRoot -> rname root = rname m ->
+    rmds m <> [] -> NoDup (keys (rmds m)) -> NoDup (keys (rmds root)) ->
+    compat_ao root (shallow_links (with_mds m (md_over (rmds m) (rmds root)))) (rkids m) ->
+    write_node c (H5 (whole_file c0 m)) root [] (WA md tr None) = (Ok tt, H5 (whole_file c0 (over_root m root))).
+Proof. exact appendover_save_with_root_metadata. Qed.
+Print Assumptions C09_appendover_save_with_root_metadata.
 
 (* file r/{a/{x, y/{z}}, b}; runtime r/{a'/{y'/{w}}, c}: a and y replaced (new payload / metadata), x and z kept, w and c added, b kept *)
 Example C09_appendover_example :
@@ -103,6 +129,44 @@ Theorem C09_foreign_whole_tree_goes_under_the_emdpath_target :
                (forall q, is_pref q h = false -> is_pref h q = false -> lookup f' q = lookup f q).
 Proof. exact foreign_whole_tree_under_emdpath. Qed.
 Print Assumptions C09_foreign_whole_tree_goes_under_the_emdpath_target.
+
+(* a targeted append of the whole runtime tree at an inner path p of the file tree it shares *)
+Theorem C09_targeted_append_merges_the_branch_at_the_emdpath :
+  forall c0 m root p km kn md tr,
+    In md appendmode -> tr <> Some false ->
+    rcls m = CRoot -> rname root = rname m -> rmds root = [] -> ok_tree m ->
+    rwalk m p = Some km -> rwalk root p = Some kn -> compat km kn ->
+    Forall (fun s => s <> "" /\ no_slash s = true) (rname m :: p) ->
+    exists f', append_existing root [] (WA md tr (Some (join_slash (rname m :: p)))) md (whole_file c0 m) = Ok f' /\
+               lookup f' (rname m :: p) = Some (enc (merge km kn)) /\
+               (forall q, is_pref q (rname m :: p) = false -> is_pref (rname m :: p) q = false -> lookup f' q = lookup (whole_file c0 m) q).
+Proof. exact targeted_append_within_a_tree. Qed.
+Print Assumptions C09_targeted_append_merges_the_branch_at_the_emdpath.
+
+(* save(path, node, mode = append) for an inner node whose path the file has: its branch is merged into the file at the
+   node's own path; for a node one beyond the file (its parent is there, the node is not): written whole under the parent *)
+Theorem C09_inner_node_append_merges_at_its_own_path :
+  forall c0 m root tp km data md tr,
+    In md appendmode -> tr <> Some false ->
+    rcls m = CRoot -> rname root = rname m -> rmds root = [] -> ok_tree m ->
+    tp <> [] -> rwalk m tp = Some km -> rwalk root tp = Some data -> compat km data ->
+    exists f', append_existing root tp (WA md tr None) md (whole_file c0 m) = Ok f' /\
+               lookup f' (rname m :: tp) = Some (enc (merge km data)) /\
+               (forall q, is_pref q (rname m :: tp) = false -> is_pref (rname m :: tp) q = false -> lookup f' q = lookup (whole_file c0 m) q).
+Proof. exact inner_node_append_merges_at_its_own_path. Qed.
+Print Assumptions C09_inner_node_append_merges_at_its_own_path.
+
+Theorem C09_inner_node_one_beyond_the_file_is_written_whole :
+  forall c0 m root q x pk data md,
+    In md (appendmode ++ appendovermode) ->
+    rcls m = CRoot -> rname root = rname m -> rmds root = [] -> ok_tree m ->
+    rwalk m q = Some pk -> get (olinks (enc pk)) x = None ->
+    rwalk root (q ++ [x]) = Some data -> rname data = x -> ok_tree data ->
+    exists f', append_existing root (q ++ [x]) (WA md (Some true) None) md (whole_file c0 m) = Ok f' /\
+               lookup f' (rname m :: q) = Some (G (oattrs (enc pk)) (olinks (enc pk) ++ [(x, enc data)])) /\
+               (forall p, is_pref p (rname m :: q) = false -> is_pref (rname m :: q) p = false -> lookup f' p = lookup (whole_file c0 m) p).
+Proof. exact inner_node_one_beyond_the_file_is_written_whole. Qed.
+Print Assumptions C09_inner_node_one_beyond_the_file_is_written_whole.
 
 Theorem C09_append_leaves_existing_nodes_unchanged :
   forall n g g', append_branch false n g = Ok g' -> ext g g'.
